@@ -251,6 +251,13 @@ def find_target(target):
             raise ExtractError(f"{target}: method not found")
         fn = cls.methods[parts[1]][-1]
         rest = parts[2:]
+        if rest:
+            # several definitions share the name (property getter / setter / deleter): take the last one that
+            # contains the nested function asked for
+            for cand in reversed(cls.methods[parts[1]]):
+                if any(isinstance(n, ast.FunctionDef) and n.name == rest[0] and n is not cand for n in ast.walk(cand)):
+                    fn = cand
+                    break
     elif parts[0] in mod.functions:
         fn = mod.functions[parts[0]]
         rest = parts[1:]
